@@ -1,5 +1,6 @@
 import Acme.Props.C01
 import Acme.Props.C02
+import Acme.Props.C01World
 import Acme.Props.C03
 import Acme.Props.C14
 import Acme.Props.C17
